@@ -16,7 +16,21 @@ var c09Weights = core.OpWeights{
 	core.OpClone: 3, core.OpPersist: 10, core.OpReload: 5, core.OpReloadJSON: 1, core.OpDrain: 1,
 }
 
+const opFaulty = "faulty" // a delete (V=0) or insert (V=1) of pool key K during which the N-th Load fails
+
 func genC09(t *rapid.T, tier string) HistCase {
+	c := genC09base(t, tier)
+	n := rapid.IntRange(0, 4).Draw(t, "nfaulty")
+	for i := 0; i < n; i++ {
+		pos := rapid.IntRange(0, len(c.Prog)).Draw(t, "faultypos")
+		op := core.Op{Kind: opFaulty, Slot: rapid.IntRange(0, 1).Draw(t, "faultyslot"), K: rapid.IntRange(0, 63).Draw(t, "faultykey"),
+			V: rapid.IntRange(0, 1).Draw(t, "faultykind"), N: rapid.IntRange(1, 6).Draw(t, "faultynth")}
+		c.Prog = append(c.Prog[:pos], append([]core.Op{op}, c.Prog[pos:]...)...)
+	}
+	return c
+}
+
+func genC09base(t *rapid.T, tier string) HistCase {
 	return genHist(t, tier, core.GenOpts{
 		Keys: []string{core.KLK, core.KLK, core.KLK, core.KLK, core.KInt, core.KUint64, core.KString, core.KBytes, core.KStruct, core.KInt64, core.KUint},
 		Vals: []string{core.VInt, core.VString},
@@ -33,10 +47,51 @@ func validateVersion(w *core.World, sr *core.SavedRoot) (*ref.ShapeReport, error
 }
 
 func runC09(c HistCase, o *run.Obs) error {
-	passThrough, deepPersistAfterMerge := 0, 0
+	passThrough, deepPersistAfterMerge, faultyErrors := 0, 0, 0
 	var mm *core.Machine
 	m, err := runHist(c, o, 2, func(w *core.World, m *core.Machine) {
 		mm = m
+		m.Custom = func(op core.Op) (bool, error) {
+			if op.Kind != opFaulty {
+				return false, nil
+			}
+			si := op.Slot % len(m.Slots)
+			if m.Slots[si] == nil {
+				si = 0
+			}
+			t := m.Slots[si]
+			base, _ := w.Store.Counters()
+			w.Store.FailLoad = func(i int, name string) bool { return i == base+op.N }
+			var opErr error
+			perr := core.Safely("operation under fault", func() error {
+				if op.V == 0 {
+					if ki, ok := core.PresentKey(t.Model, op.K); ok {
+						opErr = t.M.Delete(core.Ctx, w.Pool[ki], w.Cfg.MakeVal(t.Model[ki]))
+						if opErr == nil {
+							delete(t.Model, ki)
+						}
+					}
+				} else if ki, ok := core.AbsentKey(t.Model, len(w.Pool), op.K); ok {
+					opErr = t.M.Insert(core.Ctx, w.Pool[ki], w.Cfg.MakeVal(1))
+					if opErr == nil {
+						t.Model[ki] = 1
+					}
+				}
+				return nil
+			})
+			w.Store.FailLoad = nil
+			if perr != nil {
+				return true, perr // a panic: the case is aborted as a base failure
+			}
+			if opErr != nil {
+				faultyErrors++
+				// what an erroring operation leaves behind is C12's subject; here only the shape of what gets persisted matters
+				if err := w.ResyncModel(t); err != nil {
+					return true, err
+				}
+			}
+			return true, nil
+		}
 		m.OnPersist = func(si int, t *core.Tree, sr *core.SavedRoot) error {
 			rep, err := validateVersion(w, sr)
 			if err != nil {
@@ -77,6 +132,9 @@ func runC09(c HistCase, o *run.Obs) error {
 	o.Labelf("maxheight=%d", m.Ev.MaxHeight)
 	if passThrough > 0 {
 		o.Label("pass-through-nodes-seen")
+	}
+	if faultyErrors > 0 {
+		o.Label("operation-failed-under-load-fault")
 	}
 	return nil
 }
